@@ -23,6 +23,13 @@ This file connects the two:
 * `compile_funOracle` – every successful run of `compile` (any definitions, any return list,
   uncomputation on or off) whose gates never target an argument qubit is a Simon black box
   (`FunOracle`) for the map "everything the circuit leaves on the non-argument qubits";
+* `compile_oracles_general` – the same on the general class `inGeneralClean inputs defs [r]` (several definitions,
+  named intermediates, cache hits, re-binding, constants) from `C06_general_partial`, under its two decidable side
+  conditions on the compiled circuit (output qubit not an argument qubit, never a control);
+* `compile_funOracle_general`, `outReg`, `period_outReg` – several return bits: on `inGeneralClean inputs defs rets`
+  the compiled gate list is a `FunOracle` whose `F x` is the return bits on their qubits and zero elsewhere
+  (`C03_general_partial` + `C02_general_partial`), and the period of the denoted function is the period of `F`;
+* `runCheck` / `retsCheck` – Bool-valued checks of a run's result, for the kernel-evaluated examples;
 * `sortNat_eq` – `sortNat` (a `List.mergeSort`, which the kernel cannot evaluate) is insertion
   sort; used to evaluate `compile` on concrete programs with `And` / `Or` in the non-vacuity
   examples of `Props/C15.lean`, `Props/C16.lean`.
@@ -238,5 +245,222 @@ theorem compile_oracles (inputs : List String) (defs : List (String × BExp)) (r
     (C02.compile_bookkeeping inputs defs (some rets) true choices s h).2.2.2.1 _ (dictGet?_mem hq)
   have hA := algoXorOracle_of_xorOracle hge (compile_wf h) hX
   exact ⟨q, hq, hge, hlt, cleanXorOracle_of_xorOracle hge hlt (compile_wf h) hX, hA, funOracle_of_xorOracle hA⟩
+
+/-! ## The bridge on the general class (`C06_general_partial`, `C03_general_partial`, `C02_general_partial`) -/
+
+/-- **Bridge, general class.**  Definition lists of `inGeneralClean inputs defs [r]` (several definitions, named
+intermediates first, shared sub-expressions and cache hits, re-binding, constants; the return bit `r` a new name
+defined once, last), final uncomputation on, any successful run of the compiler model.  If the return name is
+mapped to the qubit `q`, `q` is not an argument qubit and the compiled gate list never uses `q` as a control
+(`retNeverControl`, decidable on the compiled gate list – the two side conditions of `C06_general_partial`), the
+gate list is a `CleanXorOracle`, an `Amp.XorOracle` and a one-bit `FunOracle` of the predicate the list denotes
+at `r`. -/
+theorem compile_oracles_general (inputs : List String) (defs : List (String × BExp)) (r : String)
+    (choices : List Nat) (s : CState) (q : Nat)
+    (hf : inGeneralClean inputs defs [r] = true)
+    (h : (compile inputs defs (some [r]) true).run { choices := choices } = .ok ((), s))
+    (hq : dictGet? s.qc.qmap r = some q) (hge : inputs.length ≤ q)
+    (hnc : retNeverControl s.qc.gates.toList q = true) :
+    q < s.qc.numQubits ∧
+      Grover.CleanXorOracle inputs.length s.qc.numQubits q s.qc.gates.toList (predOf inputs defs r) ∧
+      Amp.XorOracle s.qc.gates.toList inputs.length (s.qc.numQubits - inputs.length) (q - inputs.length)
+        (predOf inputs defs r) ∧
+      Amp.FunOracle s.qc.gates.toList inputs.length (s.qc.numQubits - inputs.length)
+        (fun x => Amp.embed (s.qc.numQubits - inputs.length) (q - inputs.length) (predOf inputs defs r x)) := by
+  have hX := C06.C06_general_partial inputs defs r choices s q hf h hq hge hnc
+  have hlt : q < s.qc.numQubits :=
+    (C02.compile_bookkeeping inputs defs (some [r]) true choices s h).2.2.2.1 _ (dictGet?_mem hq)
+  have hA := algoXorOracle_of_xorOracle hge (compile_wf h) hX
+  exact ⟨hlt, cleanXorOracle_of_xorOracle hge hlt (compile_wf h) hX, hA, funOracle_of_xorOracle hA⟩
+
+/-! ### several return bits: the output register -/
+
+/-- what a clean compilation of a definition list with return names `rets` leaves on the `nq - n` non-argument
+qubits for the argument bits `x`: qubit `n + j` holds the value of a return name mapped to it (any of them: names
+sharing a qubit have the same value on every input), every other qubit is zero -/
+def outReg (inputs : List String) (defs : List (String × BExp)) (rets : List String)
+    (qmap : List (String × Nat)) (nq : Nat) (x : List Bool) : List Bool :=
+  (List.range (nq - inputs.length)).map fun j =>
+    match rets.find? (fun r => dictGet? qmap r == some (inputs.length + j)) with
+    | some r => predOf inputs defs r x
+    | none => false
+
+theorem outReg_length (inputs : List String) (defs : List (String × BExp)) (rets : List String)
+    (qmap : List (String × Nat)) (nq : Nat) (x : List Bool) :
+    (outReg inputs defs rets qmap nq x).length = nq - inputs.length := by
+  simp [outReg]
+
+theorem outReg_getD (inputs : List String) (defs : List (String × BExp)) (rets : List String)
+    (qmap : List (String × Nat)) (nq : Nat) (x : List Bool) (j : Nat) (hj : j < nq - inputs.length) :
+    (outReg inputs defs rets qmap nq x).getD j false =
+      match rets.find? (fun r => dictGet? qmap r == some (inputs.length + j)) with
+      | some r => predOf inputs defs r x
+      | none => false := by
+  simp [outReg, List.getD_eq_getElem?_getD, hj]
+
+/-- **Simon black box on the general class, any number of return bits**: every successful run of the compiler
+model on a definition list of `inGeneralClean inputs defs rets` (uncomputation on) is a `FunOracle` whose `F x` is
+`outReg …  x`: the return bits on their qubits, zero on every other non-argument qubit (`C03_general_partial` for
+the argument and scratch qubits, `C02_general_partial` for the return qubits). -/
+theorem compile_funOracle_general (inputs : List String) (defs : List (String × BExp)) (rets : List String)
+    (choices : List Nat) (s : CState)
+    (hf : inGeneralClean inputs defs rets = true)
+    (h : (compile inputs defs (some rets) true).run { choices := choices } = .ok ((), s)) :
+    Amp.FunOracle s.qc.gates.toList inputs.length (s.qc.numQubits - inputs.length)
+      (outReg inputs defs rets s.qc.qmap s.qc.numQubits) := by
+  have hn : inputs.length ≤ s.qc.numQubits := (compile_ok h).2.1
+  have hClean := C03.C03_general_partial inputs defs rets choices s
+    (by simp only [inGeneralCleanClass, hf, Bool.true_or]) h
+  have hCorr := C02.C02_general_partial inputs defs rets true choices s
+    (by
+      simp only [inGeneralClean, Bool.and_eq_true] at hf
+      simp only [inGeneralClass, hf.1, Bool.true_or]) h
+  constructor
+  · simp only [Amp.wfOracle, Amp.wfGate, List.all_eq_true, Bool.or_eq_true, Bool.and_eq_true,
+      decide_eq_true_eq]
+    exact fun g hg => Or.inl ⟨(compile_wf h g hg).1, (compile_wf h g hg).2.1⟩
+  · intro x hx
+    refine ⟨outReg_length _ _ _ _ _ _, ?_⟩
+    have hz : x ++ Amp.zeros (s.qc.numQubits - inputs.length) = initState x s.qc.numQubits := by
+      simp [initState, Amp.zeros, hx]
+    rw [hz]
+    have hlen : (runClassical s.qc.gates.toList (initState x s.qc.numQubits)).length = s.qc.numQubits := by
+      rw [C06.runClassical_length', initState_length x _ (by omega)]
+    apply C06.ext_getD
+    · rw [hlen, List.length_append, outReg_length, hx]; omega
+    · intro i
+      by_cases hi : i < s.qc.numQubits
+      · have hc := hClean x hx i hi
+        by_cases hin : i < inputs.length
+        · rw [hc.1 hin]
+          simp [List.getD_eq_getElem?_getD, List.getElem?_append_left (show i < x.length by omega)]
+        · have hin' : inputs.length ≤ i := by omega
+          have hj : i - inputs.length < s.qc.numQubits - inputs.length := by omega
+          have happ : (x ++ outReg inputs defs rets s.qc.qmap s.qc.numQubits x).getD i false
+              = (outReg inputs defs rets s.qc.qmap s.qc.numQubits x).getD (i - inputs.length) false := by
+            simp only [List.getD_eq_getElem?_getD]
+            rw [List.getElem?_append_right (by omega), hx]
+          rw [happ, outReg_getD _ _ _ _ _ _ _ hj]
+          have hii : inputs.length + (i - inputs.length) = i := by omega
+          rw [hii]
+          cases hfind : rets.find? (fun r => dictGet? s.qc.qmap r == some i) with
+          | none =>
+            simp only
+            apply hc.2 hin'
+            intro hmem
+            obtain ⟨r, hr, hrq⟩ := List.mem_filterMap.mp hmem
+            have := List.find?_eq_none.mp hfind r hr
+            simp [hrq] at this
+          | some r =>
+            simp only
+            have hr : r ∈ rets := List.mem_of_find?_eq_some hfind
+            have hrq : dictGet? s.qc.qmap r = some i := by
+              have := List.find?_some hfind
+              simpa using this
+            obtain ⟨q', hq', hv⟩ := hCorr x hx r hr
+            rw [hrq] at hq'
+            cases hq'
+            exact hv
+      · have h1 : (runClassical s.qc.gates.toList (initState x s.qc.numQubits))[i]? = none := by
+          rw [List.getElem?_eq_none_iff, hlen]; omega
+        have h2 : (x ++ outReg inputs defs rets s.qc.qmap s.qc.numQubits x)[i]? = none := by
+          rw [List.getElem?_eq_none_iff, List.length_append, outReg_length, hx]; omega
+        simp [List.getD_eq_getElem?_getD, h1, h2]
+
+/-- if every return name sits on a non-argument qubit, two argument lists give the same output register iff they
+give the same values of all return bits (return names may share a qubit: `Correct` forces equal values then) -/
+theorem outReg_eq_iff {inputs : List String} {defs : List (String × BExp)} {rets : List String}
+    {gates : List AGate} {qmap : List (String × Nat)} {nq : Nat}
+    (hCorr : C02.Correct gates nq qmap inputs defs rets)
+    (hall : ∀ r ∈ rets, ∃ q, dictGet? qmap r = some q ∧ inputs.length ≤ q ∧ q < nq)
+    (x x' : List Bool) (hx : x.length = inputs.length) (hx' : x'.length = inputs.length) :
+    outReg inputs defs rets qmap nq x = outReg inputs defs rets qmap nq x' ↔
+      rets.map (fun r => predOf inputs defs r x) = rets.map (fun r => predOf inputs defs r x') := by
+  -- the value a return name has is what the register shows on its qubit
+  have key : ∀ (y : List Bool), y.length = inputs.length → ∀ r ∈ rets, ∀ q, dictGet? qmap r = some q →
+      inputs.length ≤ q → q < nq →
+      (outReg inputs defs rets qmap nq y).getD (q - inputs.length) false = predOf inputs defs r y := by
+    intro y hy r hr q hq hge hlt
+    rw [outReg_getD _ _ _ _ _ _ _ (by omega)]
+    have hii : inputs.length + (q - inputs.length) = q := by omega
+    rw [hii]
+    cases hfind : rets.find? (fun r => dictGet? qmap r == some q) with
+    | none =>
+      have := List.find?_eq_none.mp hfind r hr
+      simp [hq] at this
+    | some r' =>
+      simp only
+      have hr' : r' ∈ rets := List.mem_of_find?_eq_some hfind
+      have hrq : dictGet? qmap r' = some q := by
+        have := List.find?_some hfind
+        simpa using this
+      obtain ⟨q1, hq1, hv1⟩ := hCorr y hy r hr
+      obtain ⟨q2, hq2, hv2⟩ := hCorr y hy r' hr'
+      rw [hq] at hq1; rw [hrq] at hq2
+      cases hq1; cases hq2
+      show envOf (evalDefs defs (inputs.zip y)) r' = envOf (evalDefs defs (inputs.zip y)) r
+      rw [← hv1, ← hv2]
+  constructor
+  · intro he
+    apply List.map_inj_left.mpr
+    intro r hr
+    obtain ⟨q, hq, hge, hlt⟩ := hall r hr
+    rw [← key x hx r hr q hq hge hlt, ← key x' hx' r hr q hq hge hlt, he]
+  · intro he
+    have hv : ∀ r ∈ rets, predOf inputs defs r x = predOf inputs defs r x' := List.map_inj_left.mp he
+    unfold outReg
+    apply List.map_congr_left
+    intro j _
+    cases hfind : rets.find? (fun r => dictGet? qmap r == some (inputs.length + j)) with
+    | none => rfl
+    | some r' => exact hv r' (List.mem_of_find?_eq_some hfind)
+
+/-- `Period` of the denoted several-bit function ⇒ `Period` of the output register of its compilation -/
+theorem period_outReg {inputs : List String} {defs : List (String × BExp)} {rets : List String}
+    {gates : List AGate} {qmap : List (String × Nat)} {nq : Nat}
+    (hCorr : C02.Correct gates nq qmap inputs defs rets)
+    (hall : ∀ r ∈ rets, ∃ q, dictGet? qmap r = some q ∧ inputs.length ≤ q ∧ q < nq)
+    {sec : List Bool}
+    (hP : Amp.Period inputs.length (fun x => rets.map (fun r => predOf inputs defs r x)) sec) :
+    Amp.Period inputs.length (outReg inputs defs rets qmap nq) sec := by
+  refine ⟨hP.1, hP.2.1, fun x x' hx hx' => ?_⟩
+  rw [outReg_eq_iff hCorr hall x x' hx hx']
+  exact hP.2.2 x x' hx hx'
+
+/-! ## Checks on the result of a run (for kernel-evaluated examples) -/
+
+/-- the run succeeded, `name` is mapped to `q`, and `q` is never a control of the compiled gate list -/
+def runCheck (res : Except String (Unit × CState)) (name : String) (q : Nat) : Bool :=
+  match res with
+  | .ok (_, s) => dictGet? s.qc.qmap name == some q && retNeverControl s.qc.gates.toList q
+  | .error _ => false
+
+theorem runCheck_ok {res : Except String (Unit × CState)} {name : String} {q : Nat}
+    (h : runCheck res name q = true) :
+    ∃ s, res = .ok ((), s) ∧ dictGet? s.qc.qmap name = some q ∧ retNeverControl s.qc.gates.toList q = true := by
+  match res, h with
+  | .ok ((), s), h =>
+    simp only [runCheck, Bool.and_eq_true, beq_iff_eq] at h
+    exact ⟨s, rfl, h.1, h.2⟩
+
+/-- the run succeeded and every name of `rets` is mapped to a qubit that is not one of the first `n` -/
+def retsCheck (res : Except String (Unit × CState)) (rets : List String) (n : Nat) : Bool :=
+  match res with
+  | .ok (_, s) => rets.all fun r => match dictGet? s.qc.qmap r with
+    | some q => decide (n ≤ q)
+    | none => false
+  | .error _ => false
+
+theorem retsCheck_ok {res : Except String (Unit × CState)} {rets : List String} {n : Nat}
+    (h : retsCheck res rets n = true) :
+    ∃ s, res = .ok ((), s) ∧ ∀ r ∈ rets, ∃ q, dictGet? s.qc.qmap r = some q ∧ n ≤ q := by
+  match res, h with
+  | .ok ((), s), h =>
+    simp only [retsCheck, List.all_eq_true] at h
+    refine ⟨s, rfl, fun r hr => ?_⟩
+    have := h r hr
+    cases hq : dictGet? s.qc.qmap r with
+    | none => rw [hq] at this; cases this
+    | some q => rw [hq] at this; exact ⟨q, rfl, by simpa using this⟩
 
 end QV.EndToEnd
